@@ -101,8 +101,10 @@ pub fn adsr_obs(a: &Adsr) -> String {
         adsr::State::Sustain => 3,
         adsr::State::Release => 4,
     };
+    // raw state behind the getters (stored output, last accumulator, roll-over flag, roll-over mask): columns 10..13
+    let (rawv, (mask, last, rolled)) = a.verif_raw();
     format!(
-        "{} {} {} {} {} {} {} {} {} {}",
+        "{} {} {} {} {} {} {} {} {} {} {} {} {} {}",
         st,
         pa.0,
         pa.2,
@@ -112,7 +114,11 @@ pub fn adsr_obs(a: &Adsr) -> String {
         fb(p[0]),
         fb(p[1]),
         fb(p[2]),
-        fb(p[3])
+        fb(p[3]),
+        fb(rawv),
+        last,
+        rolled as u8,
+        mask
     )
 }
 
@@ -120,15 +126,19 @@ pub fn lfo_obs(l: &Lfo) -> String {
     let pa = l.verif_state();
     // a waveform read that panics is reported as NaN so that the position that caused it stays visible
     let g = |w: Waveshape| fb(catch_unwind(AssertUnwindSafe(|| l.get(w))).unwrap_or(f32::NAN));
+    let (mask, last, rolled) = l.verif_raw();
     format!(
-        "{} {} {} {} {} {} {}",
+        "{} {} {} {} {} {} {} {} {} {}",
         pa.0,
         pa.2,
         g(Waveshape::Sine),
         g(Waveshape::Triangle),
         g(Waveshape::UpSaw),
         g(Waveshape::DownSaw),
-        g(Waveshape::Square)
+        g(Waveshape::Square),
+        last,
+        rolled as u8,
+        mask
     )
 }
 
@@ -181,9 +191,10 @@ fn parser_obs(m: &MonoMidiReceiver) -> String {
 
 pub fn midi_obs(m: &MonoMidiReceiver) -> String {
     let (ch, rising, falling, retrig, prio, held) = m.verif_state();
+    let raw = m.verif_raw();
     let held: Vec<String> = held.iter().map(|x| x.to_string()).collect();
     let mut s = format!(
-        "{} {} {} {} {} {} {} {} {} {} {} {} {} {} {} {} p {} h",
+        "{} {} {} {} {} {} {} {} {} {} {} {} {} {} {} {} {} {} {} {} p {} h",
         ch,
         m.note_num(),
         fb(m.velocity()),
@@ -200,6 +211,11 @@ pub fn midi_obs(m: &MonoMidiReceiver) -> String {
         falling as u8,
         retrig as u8,
         prio,
+        // raw stored fields behind the getters: columns 16..19
+        raw.0,
+        fb(raw.1),
+        fb(raw.2),
+        raw.3 as u8,
         parser_obs(m)
     );
     for h in held {
